@@ -18,6 +18,16 @@ pub fn read_samples(
 ) -> Result<Samples, DecodeError> {
     use vcf::variant::record::samples::keys::key;
 
+    // The per-sample buffers below are sized by `sample_count`, which is read from the record.
+    let sample_name_count = header.sample_names().len();
+
+    if sample_count > sample_name_count {
+        return Err(DecodeError::InvalidSampleCount {
+            actual: sample_count,
+            expected: sample_name_count,
+        });
+    }
+
     let mut keys = Vec::with_capacity(format_count);
     let mut samples = vec![Vec::new(); sample_count];
 
@@ -49,6 +59,7 @@ pub fn read_samples(
 #[allow(clippy::enum_variant_names)]
 #[derive(Debug, Eq, PartialEq)]
 pub enum DecodeError {
+    InvalidSampleCount { actual: usize, expected: usize },
     InvalidKey(key::DecodeError),
     MissingTypeDefinition(String),
     InvalidValues(values::DecodeError),
@@ -57,6 +68,7 @@ pub enum DecodeError {
 impl error::Error for DecodeError {
     fn source(&self) -> Option<&(dyn error::Error + 'static)> {
         match self {
+            Self::InvalidSampleCount { .. } => None,
             Self::InvalidKey(e) => Some(e),
             Self::MissingTypeDefinition(_) => None,
             Self::InvalidValues(e) => Some(e),
@@ -67,9 +79,38 @@ impl error::Error for DecodeError {
 impl fmt::Display for DecodeError {
     fn fmt(&self, f: &mut fmt::Formatter<'_>) -> fmt::Result {
         match self {
+            Self::InvalidSampleCount { actual, expected } => write!(
+                f,
+                "invalid sample count: expected <= {expected}, got {actual}"
+            ),
             Self::InvalidKey(_) => write!(f, "invalid key"),
             Self::MissingTypeDefinition(key) => write!(f, "missing type definition: {key}"),
             Self::InvalidValues(_) => write!(f, "invalid values"),
         }
+    }
+}
+
+#[cfg(test)]
+mod tests {
+    use super::*;
+
+    #[test]
+    fn test_read_samples_with_more_samples_than_sample_names() {
+        let header = vcf::Header::builder().add_sample_name("sample0").build();
+
+        let mut src = &[][..];
+        assert_eq!(
+            read_samples(&mut src, &header, 1, 0),
+            Ok(Samples::new(Default::default(), vec![Vec::new()]))
+        );
+
+        let mut src = &[][..];
+        assert_eq!(
+            read_samples(&mut src, &header, 0x00ffffff, 0),
+            Err(DecodeError::InvalidSampleCount {
+                actual: 0x00ffffff,
+                expected: 1
+            })
+        );
     }
 }
